@@ -21,7 +21,7 @@ def plans(quick):
             dict(family='deep',
                  gen=dict(steps=4, slots=1, lists=[['e1'], ['e1', 'e2']], fail=True, restart=False), cover_limit=120, walks=40,
                  sim=dict(num=80, depth=12)),
-            dict(family='names', name_mode=True, gen=dict(steps=4, slots=2, rcs=['model', 'model.large'], lists=[['model'], ['model.large']], fail=False, restart=False), cover_limit=120, walks=40, sim=dict(num=80, depth=10, fail=False)),
+            dict(family='names', name_mode=True, gen=dict(steps=5, slots=1, rcs=['model', 'model.large'], lists=[['model'], ['model.large']], fail=False, restart=False), cover_limit=None, walks=100, sim=dict(num=200, depth=10, fail=False, rcs=['model', 'model.large'], lists=[['model'], ['model.large']])),
         ]
     return [
         dict(family='names', name_mode=True, checks=[dict(steps=4, slots=2)], gen=dict(steps=4, slots=2, rcs=['model', 'model.large'], lists=[['model'], ['model.large']]), walks=200, sim=dict(num=600, depth=14)),
